@@ -203,6 +203,8 @@ impl ObjValueBuilder {
 			assertions_ran: Cell::new(!has_assertions),
 			has_assertions,
 			value_cache: RefCell::default(),
+			#[cfg(jrsonnet_verif)]
+			vid: crate::verif::next_id(),
 		}))
 	}
 }
